@@ -288,20 +288,23 @@ def run_mesher_wrapper(mutate=None):
                 check(f"C07.mesher_wrapper.number_of_triangle_calls[{t2}]", z3.BoolVal(len(builds) == nb), note=str(len(builds)))
                 last = builds[-1]
                 ok_shape = getattr(pts, "shape", None) == last["points"].shape
-                goal = z3.And(*[sym.eq(SR.lift(pts[i, j]), last["points"][i, j] + float(r0[j])) for i in range(last["points"].shape[0]) for j in range(2)]) if ok_shape else z3.BoolVal(False)
-                check(f"C07.mesher_wrapper.sites_are_the_last_triangulation_shifted_back_to_the_outline[{t2}]", goal)
+                # the shift applied on return, read off the first vertex (how the outline is centred internally is not part of the property)
+                shift = [SR.lift(pts[0, j] - last["points"][0, j]).concrete() for j in range(2)] if ok_shape else [None, None]
+                ok_shift = ok_shape and None not in shift
+                goal = z3.And(*[sym.eq(SR.lift(pts[i, j]), last["points"][i, j] + shift[j]) for i in range(last["points"].shape[0]) for j in range(2)]) if ok_shift else z3.BoolVal(False)
+                check(f"C07.mesher_wrapper.sites_are_the_last_triangulation_moved_rigidly[{t2}]", goal)
                 check(f"C07.mesher_wrapper.triangles_are_those_of_the_last_triangulation[{t2}]", z3.BoolVal(np.array_equal(np.asarray(tri), last["elements"])))
                 info = last["info"]
-                want = np.concatenate([film] + ([hole] if holes else [])) - r0
-                check(f"C07.mesher_wrapper.triangle_receives_the_outline_centred_on_its_bounding_box[{t2}]",
-                      z3.BoolVal(info is not None and info.points.shape == want.shape and bool(np.allclose(info.points, want, atol=1e-12))))
+                want = np.concatenate([film] + ([hole] if holes else []))
+                check(f"C07.mesher_wrapper.the_shift_back_undoes_the_shift_given_to_triangle[{t2}]",
+                      z3.BoolVal(bool(ok_shift) and info is not None and info.points.shape == want.shape and bool(np.allclose(info.points + np.array(shift), want, atol=1e-9))))
                 nf = len(film)
                 loops = [list(range(nf))] + ([list(range(nf, nf + len(hole)))] if holes else [])
                 wantf = sorted((a, b) for lp in loops for a, b in zip(lp, lp[1:] + lp[:1]))
                 check(f"C07.mesher_wrapper.facets_close_every_outline[{t2}]", z3.BoolVal(sorted(map(tuple, np.asarray(info.facets).tolist())) == wantf))
                 if holes:
                     hp = getattr(info, "holes", [])
-                    inside = len(hp) == 1 and 0.5 < hp[0][0] < 1.5 and -0.5 < hp[0][1] < 0.5
+                    inside = bool(ok_shift) and len(hp) == 1 and 10.5 < hp[0][0] + shift[0] < 11.5 and -5.5 < hp[0][1] + shift[1] < -4.5
                     check(f"C07.mesher_wrapper.hole_marker_inside_the_centred_hole[{t2}]", z3.BoolVal(bool(inside)))
     obls, n = explore(body)
     L0 = instrument.load(G_, mutate=mut, vc=vcm.VC())
@@ -475,7 +478,7 @@ MUTANTS = [
     dict(name="refinement returns the first triangulation", units=["generate_mesh[wrapper around Triangle]"], edits=[
         (G_, "        mesh = triangle.build(mesh_info=mesh_info, **kwargs)\n        points = np.array(mesh.points) + r0\n        triangles = np.array(mesh.elements)\n        max_length",
          "        mesh = triangle.build(mesh_info=mesh_info, **kwargs)\n        points2 = np.array(mesh.points) + r0\n        triangles = np.array(mesh.elements)\n        max_length")]),
-    dict(name="centre of the outline from the film vertices' mean", units=["generate_mesh[wrapper around Triangle]"], edits=[
+    dict(name="benign: outline centred on its upper right corner", units=["generate_mesh[wrapper around Triangle]"], edits=[
         (G_, "    r0 = np.array([[xmin, ymin]]) + np.array([[dx, dy]]) / 2", "    r0 = np.array([[xmin, ymin]]) + np.array([[dx, dy]])")], expect="pass"),
     dict(name="circumcentre Ux uses C[:,0]", edits=[(U_, "Ux = (C[:, 1] * (B**2).sum(axis=1) - B[:, 1] * (C**2).sum(axis=1)) / D", "Ux = (C[:, 0] * (B**2).sum(axis=1) - B[:, 1] * (C**2).sum(axis=1)) / D")]),
     dict(name="circumcentre not shifted back", edits=[(U_, "return np.array([Ux, Uy]).T + A", "return np.array([Ux, Uy]).T")]),
